@@ -74,6 +74,7 @@ bool LoadScenario(const js::J& j, Scenario* s, string* err) {
     op.path = oj["path"].str();
     op.content = oj["content"].str();
     op.no_expand = oj["no_expand"].boolean(false);
+    op.compare_output_with_twin = oj["compare_output_with_twin"].boolean(false);
     if (k == "edit") op.kind = Op::kEdit;
     else if (k == "touch") op.kind = Op::kTouch;
     else if (k == "rm") op.kind = Op::kRm;
